@@ -34,6 +34,13 @@ AllDevs == {"CondSameTypeNoConversion",   \* condexpr: `if (lt == rt) t = lt;` b
             "DerefDecayedArrayDropsQual", \* mkunaryexpr(TMUL) undoes a decay by returning the array expression itself with
                                           \* type = element type; the element qualifiers (kept in the array type) are lost:
                                           \* `*ca` with `const char ca[3]` has type char
+            "FoldedCondKeepsDecay",       \* condexpr with a constant condition returns exprconvert(selected, t); when t is the
+                                          \* selected operand's own type (null pointer constant rows) the decayed array /
+                                          \* function node itself comes back: sizeof(1 ? arr : 0) is sizeof(arr) (modelled in
+                                          \* CTypesExprGen.G_Cond)
+            "FoldedNullVoidPtrIsNpc",     \* expr.c nullpointer(): any EXPRCONST of type pointer-to-void with value 0 counts as a null
+                                          \* pointer constant, e.g. the folded `0.0 ? vp : 0` (6.3.2.3p3: only an integer constant
+                                          \* expression 0 or such an expression CAST to void *); modelled in CTypesExprGen.G_Cond
             "SizeofSeesBitfield"}         \* exprconvert returns the EXPRBITFIELD node itself when no conversion is
                                           \* needed, so sizeof(+s.bf) / sizeof(1 ? s.bf : x) are refused as "bitfield expression"
 
